@@ -826,8 +826,14 @@ Qed.
 (* every compiled function equals the hand-written model for ALL arguments (results and panics alike); for
    fill_symbol: whenever the fuel covers the INLINE ranges of the function found and the model does not run out of
    its own fuel.  The compiled `instr - mbase` (a u64 subtraction the model writes as plain `-`) cannot trap; neither can
-   the `- 1` of the two memory_range functions, nor the `start <= end` assertion of Range::new (for non-negative fields). *)
+   the `- 1` of the two memory_range functions, nor the `start <= end` assertion of Range::new (for non-negative fields).
+   First conjunct: the Line::Function arm of SymbolParser::finish_item (parser side), compiled with its closures: pushing
+   onto self.functions what [finish_func] returns; after the `size > 0` filter the closure's `l.size as u64 - 1` cannot trap. *)
 Theorem c11_compiled_source_tie :
+  (forall p acc cur lines inls, u64 (fn_addr cur) -> u32 (fn_size cur) -> Forall wf_line lines ->
+     C11Src.src_finish_function p acc cur lines inls =
+     do r <- finish_func (mk_fraw (fn_addr cur) (fn_size cur) (fn_psize cur) (fn_name cur) lines inls);
+     Ret (acc ++ match r with Some e => [e] | None => [] end)) /\
   (forall p f, 0 <= fn_addr f -> 0 <= fn_size f ->
      C11Src.src_func_memory_range p f = Ret (mk_range (fn_addr f) (fn_size f))) /\
   (forall p w, 0 <= w_addr w -> 0 <= w_size w -> C11Src.src_win_memory_range p w = Ret (win_range w)) /\
